@@ -487,7 +487,7 @@ impl<K, V, A: Allocator> CaoHashMap<K, V, A> {
         } else {
             // if it would need to grow on insert, then allocate the new buffer now
             let mut i = i;
-            if Self::needs_grow(self.count + 1, self.capacity) {
+            while Self::needs_grow(self.count + 1, self.capacity) {
                 self.grow()?;
                 // the buckets have moved
                 i = self.find_ind(hash, &key);
